@@ -1,2 +1,11 @@
-(* C02 - placeholder until the pipeline theorems are proved *)
-Require Import WD.Base.Prelude WD.Model.Pipeline.
+(* C02 - A recursive watch covers every directory that exists, under its current name.
+   Only statements; every proof is `exact <lemma>`. *)
+Require Import WD.Base.Prelude WD.Base.BStr WD.Model.SubEvents WD.Model.Emitter WD.Model.Fs WD.Model.Reader
+               WD.Model.Pipeline WD.Proofs.CoverProofs.
+
+(* Well-formed file systems (unique paths, unique inodes, fresh inode counter, normal paths, every entry that lies
+   below another entry has its parent directory in the file system) are closed under every applicable operation
+   on normal paths. *)
+Theorem C02_wf_preserved : forall w o w', wf_fs w -> op_np o -> apply_op w o = Some w' -> wf_fs w'.
+Proof. exact wf_apply_op. Qed.
+Print Assumptions C02_wf_preserved.
